@@ -1279,3 +1279,319 @@ def c05_r7_savepoint_symmetry(ctx):
     if f is not None:
         dr = ctx.sites(f, TM + '::drop_unpersisted_data_freed_after', exact=1)
         ctx.guarded(f, dr, [Guard(place='self.restored_transaction', vals={'Some'})])
+
+
+# ------------------------------------------------------------------------------------ C08
+SB_METHODS = ('len', 'read', 'write', 'set_len', 'sync_data', 'close')
+
+
+def c08_r1_one_door(ctx):
+    ctx.set_rule('C08.R1', 'one door to the backend: StorageBackend methods are called only by CheckedBackend (and the forwarding ReadOnlyBackend)')
+    ro = ctx.cfg != 'N'
+    table = {
+        'len': {CB + '::len'} | ({'<ReadOnlyBackend as StorageBackend>::len'} if ro else set()),
+        'read': {CB + '::read'} | ({'<ReadOnlyBackend as StorageBackend>::read'} if ro else set()),
+        'write': {CB + '::write', CB + '::write_best_effort'},
+        'set_len': {CB + '::set_len'},
+        'sync_data': {CB + '::sync_data'},
+        'close': {CB + '::close', '<CheckedBackend as Drop>::drop'} | ({'<ReadOnlyBackend as StorageBackend>::close'} if ro else set()),
+    }
+    for m, exp in table.items():
+        ctx.callers_eq('StorageBackend::' + m, exp)
+    # the CheckedBackend operations themselves have frozen callers
+    ctx.callers_eq(CB + '::write', {PCF + '::flush_lowest_priority', PCF + '::flush_write_buffer'})
+    ctx.callers_eq(CB + '::write_best_effort', {PCF + '::flush_lowest_priority'})
+    ctx.callers_eq(CB + '::set_len', {PCF + '::resize'})
+    ctx.callers_eq(CB + '::sync_data', {PCF + '::flush', PCF + '::sync_file'})
+    ctx.callers_eq(CB + '::close', {PCF + '::close'})
+    ctx.callers_eq(CB + '::read', {PCF + '::read_direct', PCF + '::read_direct_into_arc'})
+    ctx.callers_eq(CB + '::len', {PCF + '::raw_file_len', PCF + '::resize'})
+    # the boxed backend is owned only by CheckedBackend / ReadOnlyBackend
+    holders = set()
+    for p, a in ctx.facts.adts.items():
+        for v in a['variants']:
+            for fl in v['fields']:
+                if 'dyn db::StorageBackend' in fl['adts']:
+                    holders.add(p)
+    exp = {'tree_store::page_store::cached_file::CheckedBackend'} | ({'tree_store::page_store::backends::ReadOnlyBackend'} if ro else set())
+    ctx.check(holders == exp, 'holders|dyn StorageBackend', 'only %s hold a Box<dyn StorageBackend> (found %s)' % (sorted(exp), sorted(holders)))
+
+
+def c08_r2_check_then_latch(ctx):
+    ctx.set_rule('C08.R2', 'every backend operation: refused after a failure (check_failure Ok-edge), failure latched on error')
+    n = 0
+    for m in ('len', 'read', 'set_len', 'sync_data', 'write'):
+        f = ctx.fn(CB + '::' + m)
+        if f is None:
+            continue
+        bk = ctx.sites(f, 'StorageBackend::' + m, exact=1)
+        ctx.guarded(f, bk, [ok(CB + '::check_failure')], 'backend %s only after check_failure returned Ok' % m)
+        st = ctx.atomic_sites(f, 'store', 'self.io_failed', exact=1, value=True)
+        ctx.guarded(f, st, [err('StorageBackend::' + m)], 'failure latched on the error edge')
+        e_ok = core.guard_edges(f, [ok('StorageBackend::' + m)])
+        ctx.must_pass(f, st, start=bk[0] if bk else None, exits='any', extra_cut_edges=e_ok, what='a failed backend %s always latches io_failed' % m)
+        n += 1
+    f = ctx.fn(CB + '::write_best_effort')
+    if f is not None:
+        bk = ctx.sites(f, 'StorageBackend::write', exact=1)
+        ctx.guarded(f, bk, [ok(CB + '::check_failure')])
+        n += 1
+    ctx.check(n >= 6, 'floor|checked-ops', 'the 6 CheckedBackend operations were analysed (found %d)' % n)
+    f = ctx.fn(CB + '::check_failure')
+    if f is not None:
+        # Ok(()) only when io_failed is false
+        oks = []
+        for i, b in enumerate(f.blocks):
+            for j, s_ in enumerate(b['s']):
+                if s_[0] == 'a' and s_[1][0] == 0 and not s_[1][1] and s_[2]['k'] == 'agg' and s_[2]['v'] == 'Ok':
+                    oks.append(Point(f, i, j, 'return Ok', s_[3]))
+        ctx.check(len(oks) >= 1, 'floor|%s|ok' % f.path, 'check_failure has an Ok return', f, f.line)
+        ctx.guarded(f, oks, [Guard(place='self.io_failed', vals={'false'})], 'check_failure returns Ok only while io_failed is false')
+    # writers of io_failed
+    own = set()
+    for f_ in ctx.facts.fn_list:
+        S_ = core.sym(f_)
+        for c in f_.calls_to('Atomic::store'):
+            d = S_.describe(S_.operand(c.t['a'][0])) if c.t['a'] else ''
+            if d.endswith('.io_failed'):
+                own.add(f_.path)
+                a = c.t['a'][1]
+                ctx.check(a[0] == 'k' and a[2] is True, 'unlatch|%s' % f_.path, 'io_failed is only ever set to true', f_, c.line)
+    ctx.check(len(own) >= 6, 'floor|io_failed-writers', 'io_failed writers found: %d' % len(own))
+
+
+def c08_r3_no_dropped_errors(ctx):
+    ctx.set_rule('C08.R3', 'no storage error is dropped (discard allow-list)')
+    allow = {
+        (PCF + '::read', PCF + '::flush_buffered_pages'): 'best-effort reclaim of buffered pages; documented at the site',
+        ('<CheckedBackend as Drop>::drop', 'StorageBackend::close'): 'failed open path: Drop cannot report',
+        ('BtreeMut::retain_in_helper', 'CursorMut::finish_pending_removals'): 'error already being propagated; documented at the site',
+        ('BtreeExtractIf::latch_error', 'BtreeExtractIf::close'): 'the original error is what is reported',
+        ('<BtreeExtractIf as Drop>::drop', 'BtreeExtractIf::close'): 'Drop cannot report; close_failed poisons (C05.R4)',
+        ('<ExtractIf as Drop>::drop', 'BtreeExtractIf::close'): 'Drop cannot report; close_failed poisons (C05.R4)',
+        ('<CursorMut as Drop>::drop', 'CursorMut::finish'): 'Drop cannot report; finish() poisons (C05.R4)',
+    }
+    ds = core.discard_sites(ctx.facts)
+    seen = set()
+    for c in ds:
+        root = ctx.facts.root_of(c.fn)
+        hit = None
+        for (fn_pat, callee_pat), why in allow.items():
+            if core.name_matches(fn_pat, root.names) and c.matches(callee_pat):
+                hit = (fn_pat, callee_pat)
+        ctx._ob(hit is not None, ctx.sample('discard', c.fn, c.line, 'discarded Result of %s in %s: %s' % (c.callee, root.path, allow.get(hit, 'NOT ALLOWED'))))
+        if hit is None:
+            ctx.violate('discard|%s|%s' % (root.path, core.strip_generics(c.callee or '?')), 'storage error dropped: the Result of `%s` is never looked at in `%s`' % (c.callee, root.path), c.fn, c.line)
+        else:
+            seen.add(hit)
+    # count of calls examined
+    total = 0
+    for f in ctx.facts.fn_list:
+        for c in f.calls:
+            et = core.result_err_type(c.t.get('dty', ''))
+            if et and any(e in et for e in core.ERR_TYPES):
+                total += 1
+    ctx.per_rule[ctx.rule]['sites'] += total
+    ctx.check(total >= 1000, 'floor|result-calls', 'at least 1000 calls returning a redb error type were examined (found %d)' % total)
+    ctx.check(len(seen) >= 6, 'floor|discard-detector', 'the discard detector still sees the 6 documented discard sites (found %d) -- otherwise it is blind' % len(seen))
+
+
+def c08_r4_refused_after_failure(ctx):
+    ctx.set_rule('C08.R4', 'commits start behind check_io_errors')
+    for nm in (TM + '::commit', TM + '::non_durable_commit'):
+        f = ctx.fn(nm)
+        if f is not None:
+            ws = ctx.sites(f, 'DatabaseHeader::write_secondary_slot', exact=1)
+            ctx.guarded(f, ws, [ok(PCF + '::check_io_errors')])
+    f = ctx.fn(WT + '::abort_inner_impl')
+    if f is not None:
+        rb = ctx.sites(f, PA + '::rollback_all', exact=1)
+        ctx.guarded(f, rb, [ok(TM + '::check_io_errors')], 'no rollback I/O after a failure')
+    f = ctx.fn(TM + '::storage_failure')
+    if f is not None:
+        ctx.sites(f, PCF + '::check_io_errors', exact=1)
+    f = ctx.fn(PCF + '::check_io_errors')
+    if f is not None:
+        ctx.sites(f, CB + '::check_failure', exact=1)
+
+
+def c08_r8_flush_keeps_page(ctx):
+    ctx.set_rule('C08.R8', 'a failed write-back keeps the page buffered')
+    f = ctx.fn(PCF + '::flush_lowest_priority')
+    if f is None:
+        return
+    ins = ctx.sites(f, 'LRUWriteCache::insert', exact=1)
+    w = ctx.sites(f, [CB + '::write', CB + '::write_best_effort'], exact=2)
+    ctx.guarded(f, ins, [err(CB + '::write'), err(CB + '::write_best_effort'), Guard(place='result', vals={'Err'})], 're-insert on the error edge')
+    # on error the re-insert is not skippable before the error propagates
+    e_ok = core.guard_edges(f, [ok(CB + '::write'), ok(CB + '::write_best_effort'), Guard(place='result', vals={'Ok'})])
+    pop = ctx.sites(f, 'LRUWriteCache::pop_lowest_priority', exact=1)
+    for wp in w:
+        ctx.must_pass(f, ins, start=wp, exits='any', extra_cut_edges=e_ok | core.guard_edges(f, [Guard(call='LRUWriteCache::pop_lowest_priority', vals={'None'})]),
+                      what='after a failed write the page is re-inserted before the function returns')
+    # write_best_effort only on the BestEffort arm
+    be = [p for p in w if p.call.matches(CB + '::write_best_effort')]
+    ctx.guarded(f, be, [Guard(place='writeback', vals={'BestEffort'})], 'non-latching write only for best-effort write-back')
+    # callers pass Required except flush_buffered_pages
+    for path, sites in ctx.facts.callers_of(PCF + '::flush_lowest_priority', root=False).items():
+        for c in sites:
+            a = c.t['a'][3]
+            term = core.sym(c.fn).operand(a)
+            v = term[2] if term[0] == 'agg' else None
+            want = 'BestEffort' if path.endswith('flush_buffered_pages') else 'Required'
+            ctx.check(v == want, 'writeback|%s' % path, '`%s` calls flush_lowest_priority with Writeback::%s (found %s)' % (path, want, v), c.fn, c.line)
+    ctx.callers_eq(PCF + '::flush_lowest_priority', {PCF + '::write', PCF + '::flush_buffered_pages'})
+    ctx.callers_eq(PCF + '::flush_buffered_pages', {PCF + '::read'})
+
+
+# ------------------------------------------------------------------------------------ C20
+def c20_r1_closed_means_failed(ctx):
+    ctx.set_rule('C20.R1', 'close marks the backend closed and failed before closing it')
+    f = ctx.fn(CB + '::close')
+    if f is not None:
+        a = ctx.atomic_sites(f, 'store', 'self.closed', exact=1, value=True)
+        b = ctx.atomic_sites(f, 'store', 'self.io_failed', exact=1, value=True)
+        c = ctx.sites(f, 'StorageBackend::close', exact=1)
+        ctx.order(f, a, c)
+        ctx.order(f, b, c)
+        ctx.must_pass(f, c, exits='any', what='CheckedBackend::close always calls the backend close')
+    f = ctx.fn(CB + '::check_failure')
+    if f is not None:
+        # DatabaseClosed only when closed
+        pts = []
+        for i, b_ in enumerate(f.blocks):
+            for j, s_ in enumerate(b_['s']):
+                if s_[0] == 'a' and s_[2]['k'] == 'agg' and s_[2]['v'] == 'DatabaseClosed':
+                    pts.append(Point(f, i, j, 'StorageError::DatabaseClosed', s_[3]))
+        ctx.check(len(pts) == 1, 'floor|DatabaseClosed', 'check_failure constructs DatabaseClosed once', f, f.line)
+        ctx.guarded(f, pts, [Guard(place='self.closed', vals={'true'})])
+
+
+def c20_r2_close_once(ctx):
+    ctx.set_rule('C20.R2', 'close exactly once: chain of owners and guards')
+    ctx.callers_eq(PCF + '::close', {TM + '::close'})
+    ctx.callers_eq(TM + '::close', {'close_database'})
+    f = ctx.fn('<CheckedBackend as Drop>::drop')
+    if f is not None:
+        c = ctx.sites(f, 'StorageBackend::close', exact=1)
+        ctx.guarded(f, c, [Guard(place='self.closed', vals={'false'})], 'Drop closes only if close() was never called')
+        e_closed = core.guard_edges(f, [Guard(place='self.closed', vals={'true'})])
+        ctx.must_pass(f, c, exits='any', extra_cut_edges=e_closed, what='an unclosed backend is always closed on drop')
+    f = ctx.fn(TM + '::close')
+    if f is not None:
+        c = ctx.sites(f, PCF + '::close', exact=1)
+        ctx.must_pass(f, c, exits='any', what='TransactionalMemory::close always closes the storage, also when the shutdown writes failed')
+    a = ctx.facts.adts.get('tree_store::page_store::cached_file::CheckedBackend')
+    ctx.check(a is not None and a['drop'], 'drop-impl|CheckedBackend', 'CheckedBackend has a Drop impl (failed opens close the backend)')
+    # closed is only ever set (never cleared)
+    for f_ in ctx.facts.fn_list:
+        S_ = core.sym(f_)
+        for c in f_.calls_to('Atomic::store'):
+            d = S_.describe(S_.operand(c.t['a'][0])) if c.t['a'] else ''
+            if d.endswith('.closed') and 'CheckedBackend' in f_.path:
+                a_ = c.t['a'][1]
+                ctx.check(a_[0] == 'k' and a_[2] is True, 'unclose|%s' % f_.path, 'CheckedBackend.closed is only ever set to true', f_, c.line)
+
+
+def c20_r3_failed_open(ctx):
+    ctx.set_rule('C20.R3', 'failed opens close the backend via Drop: the backend is wrapped before the first fallible step')
+    f = ctx.fn(TM + '::new')
+    if f is not None:
+        pn = ctx.sites(f, PCF + '::new', exact=1)
+        # every error exit is after PCF::new (asserts may panic before: the Box<dyn StorageBackend> then drops without close -- asserts are argument validation)
+        eb = [Point(f, b, len(f.blocks[b]['s']), 'error return', f.blocks[b]['t'].get('l')) for b in sorted(core.error_blocks(f))]
+        r = core.reach(f, cut_blocks={p.bb for p in pn})
+        bad = [p for p in eb if p.bb in r['term']]
+        ctx.check(not bad and len(eb) > 5, 'order|%s|wrap-first' % f.path, 'no error return of TM::new is reachable before the backend is wrapped by PagedCachedFile::new (%d error exits examined)' % len(eb), f, bad[0].line if bad else f.line)
+        for p in pn:
+            ctx.flows(f, p, 0, from_arg='file')
+    g = ctx.fn(PCF + '::new')
+    if g is not None:
+        cn = ctx.sites(g, CB + '::new', exact=1)
+        ctx.check(not core.error_blocks(g), 'infallible|%s' % g.path, 'PagedCachedFile::new has no error return before it owns the backend', g, g.line)
+
+
+def c20_r4_page_addresses(ctx):
+    ctx.set_rule('C20.R4', 'page addresses are validated before they are turned into file offsets')
+    for nm in ('get_page', 'get_page_mut'):
+        f = ctx.fn(TM + '::' + nm)
+        if f is not None:
+            ar = ctx.sites(f, 'PageNumber::address_range', exact=1)
+            ctx.guarded(f, ar, [ok(TM + '::check_page_order')], 'address_range only after check_page_order returned Ok')
+    f = ctx.fn(TM + '::mark_page_allocated')
+    if f is not None:
+        ra = ctx.sites(f, 'BuddyAllocator::record_alloc', exact=1)
+        gr = ctx.sites(f, 'InMemoryState::get_region_mut', exact=1)
+        ctx.guarded(f, ra + gr, [ok(TM + '::check_page_order')])
+        ctx.guarded_cmp(f, gr, [Guard(call='DatabaseLayout::num_regions', cmp=True)], 'allocator indexed only after the region bound check')
+        ctx.guarded_cmp(f, ra, [Guard(call='RegionLayout::num_pages', cmp=True)], 'record_alloc only after the end-of-region check')
+        # must_use result checked: Err on false edge
+        e_true = core.guard_edges(f, [true_of('BuddyAllocator::record_alloc')])
+        r = core.reach(f, start=(ra[0].bb, ra[0].idx), cut_edges=e_true, cut_blocks=core.error_blocks(f)) if ra else None
+        if r is not None:
+            ctx.check(not any(rb in r['term'] for rb in f.ret_blocks()), 'must-pass|%s|record_alloc-false' % f.path, 'a refused record_alloc (overlap) cannot lead to a success return', f, ra[0].line)
+    f = ctx.fn(TM + '::check_page_order')
+    if f is not None:
+        ctx.check(len(core.error_blocks(f)) >= 1, 'floor|check_page_order-err', 'check_page_order has an error return', f, f.line)
+
+
+def c20_r5_shrink(ctx):
+    ctx.set_rule('C20.R5', 'shrink never below a used page: the reduction derives from trailing_free_pages')
+    f = ctx.fn(TM + '::try_shrink')
+    if f is not None:
+        rl = ctx.sites(f, 'DatabaseLayout::reduce_last_region', exact=1)
+        for p in rl:
+            ctx.flows(f, p, 1, from_call='BuddyAllocator::trailing_free_pages')
+        sl = ctx.sites(f, 'DatabaseHeader::set_layout', exact=1)
+        rz = ctx.sites(f, 'Allocators::resize_to', exact=1)
+        ctx.order(f, rl, sl + rz)
+        tf = ctx.sites(f, 'BuddyAllocator::trailing_free_pages', exact=1)
+        gr = ctx.sites(f, 'InMemoryState::get_region', exact=1)
+    f = ctx.fn(TM + '::commit')
+    if f is not None:
+        rs = ctx.sites(f, PCF + '::resize', exact=1)
+        ctx.guarded(f, rs, [Guard(place='shrunk', vals={'true'})], 'file shrunk only if try_shrink reduced the layout')
+        for p in rs:
+            ctx.flows(f, p, 1, from_call='DatabaseLayout::len')
+
+
+def c20_r6_read_only(ctx):
+    ctx.set_rule('C20.R6', 'read-only database: wrapped backend, read_only flag, never writes/resizes/syncs')
+    if ctx.cfg == 'N':
+        ctx.check(not ctx.has_fn('ReadOnlyDatabase::new'), 'absent|ReadOnlyDatabase', 'ReadOnlyDatabase does not exist in the no_std configuration')
+        return
+    f = ctx.fn('ReadOnlyDatabase::new')
+    if f is not None:
+        tm = ctx.sites(f, TM + '::new', exact=1)
+        rb = ctx.sites(f, 'ReadOnlyBackend::new', exact=1)
+        for p in tm:
+            ctx.flows(f, p, 0, from_call='ReadOnlyBackend::new', what='TransactionalMemory receives the read-only wrapper')
+            ctx.const_arg(f, p, 1, False, 'allow_initialize = false')
+            ctx.const_arg(f, p, 5, True, 'read_only = true')
+        ctx.no_direct(f, [TM + '::begin_writable', TM + '::commit', 'Database::do_repair'], 'read-only open never marks the file writable or repairs')
+        la = ctx.sites(f, TM + '::load_allocator_state', exact=1)
+        ctx.guarded(f, la, [Guard(call='Database::get_allocator_state_table', vals={'Some'})])
+    for m in ('write', 'set_len', 'sync_data'):
+        g = ctx.fn('<ReadOnlyBackend as StorageBackend>::' + m)
+        if g is not None:
+            bad = [c for c in g.calls if c.matches('StorageBackend::' + m) or c.t.get('virt')]
+            ctx.check(not bad, 'forward|ReadOnlyBackend::%s' % m, 'ReadOnlyBackend::%s forwards nothing to the wrapped backend' % m, g, g.line)
+            ctx.check(not g.ret_blocks() or not any(rb in core.reach(g)['term'] for rb in g.ret_blocks()), 'diverges|ReadOnlyBackend::%s' % m, 'ReadOnlyBackend::%s diverges (unreachable!)' % m, g, g.line)
+    a = ctx.facts.adts.get('db::ReadOnlyDatabase')
+    ctx.check(a is not None and not a['drop'], 'drop|ReadOnlyDatabase', 'ReadOnlyDatabase has no Drop impl (no shutdown write; the backend is closed by CheckedBackend::drop)')
+    # Database constructors pass read_only = false
+    f = ctx.fn('Database::new')
+    if f is not None:
+        for p in ctx.sites(f, TM + '::new', exact=1):
+            ctx.const_arg(f, p, 5, False)
+    # in TM::new the recovery rewrite is behind !read_only
+    f = ctx.fn(TM + '::new')
+    if f is not None:
+        # RepairAborted return guarded by read_only true
+        pts = []
+        for i, b_ in enumerate(f.blocks):
+            for j, s_ in enumerate(b_['s']):
+                if s_[0] == 'a' and s_[2]['k'] == 'agg' and s_[2]['v'] == 'RepairAborted':
+                    pts.append(Point(f, i, j, 'DatabaseError::RepairAborted', s_[3]))
+        ctx.check(len(pts) == 1, 'floor|RepairAborted', 'TM::new constructs RepairAborted once', f, f.line)
+        ctx.guarded(f, pts, [Guard(place='read_only', vals={'true'})])
